@@ -254,6 +254,10 @@ class GlueMixin:
                 return e[2]
         return None
 
+    def g_result_text(self, args, st):
+        """canonical text of the returned opaque term"""
+        return render(self.result)
+
     def g_stored_at(self, args, st):
         """True iff some field/item store has a target text containing the fragment"""
         return any(e[0] in ("set", "setitem") and args[0] in e[1] for e in st.ghost.get("trace", []))
@@ -377,4 +381,4 @@ class GlueMixin:
         return SList([(e[2] if e[0] == "call" else "%s = %s" % (e[1], e[2])) for e in self._events(st)])
 
 
-GLUE_SPEC = {"call_arg_mentions", "swap_closed", "no_right_effect", "right_enabled", "ncalls", "call_mentions", "called_before", "sets", "event_texts", "last_store", "branch", "stored_at"}
+GLUE_SPEC = {"call_arg_mentions", "swap_closed", "no_right_effect", "right_enabled", "ncalls", "call_mentions", "called_before", "sets", "event_texts", "last_store", "branch", "stored_at", "result_text"}
